@@ -618,15 +618,36 @@ class Expander:
             return None
         return h
 
+    def _pure_closure(self, n):
+        """the local closure `const auto f = [..](params) { return <expr>; };` that call node n invokes - or None"""
+        if n["k"] != "call" or n.get("op") != "()" or "recv" not in n:
+            return None
+        r = self.fn.nodes[self.fn.strip(n["recv"])]
+        if r.get("k") != "ref" or r.get("dk") != "local" or r.get("decl") not in self.single:
+            return None
+        top = self.fn.nodes[self.fn.strip(self.single[r["decl"]])]
+        h = self.prog.fns.get(top.get("lusr")) if top.get("k") == "lambda" else None
+        if h is None:
+            return None
+        rets = [m for m in h.nodes if m["k"] == "return"]
+        if len(rets) != 1 or "val" not in rets[0] or any(m["k"] in ("decl", "if", "for", "while", "do", "rangefor", "switch", "lambda") for m in h.nodes):
+            return None
+        if len(n.get("args", [])) != len(h.params) or any(m.get("captured") for m in h.nodes if m["k"] == "ref"):
+            return None          # (captures would have to be rendered in the caller's scope: not needed so far)
+        return h
+
     def _ncb(self, i, n):
         # a call of a NEW one-expression helper is what that expression is, with the arguments in place of the parameters
         h = self._new_pure_helper(n) if self._depth < 3 else None
+        if h is None and self._depth < 3:
+            h = self._pure_closure(n)
         if h is not None:
             self._depth += 1
             try:
                 amap = {p_["decl"]: self.fn.text(a_, 0, self._cb, self._ncb) for p_, a_ in zip(h.params, n["args"])}
                 rv = next(m for m in h.nodes if m["k"] == "return")["val"]
                 t_ = h.text(rv, 0, lambda r_: amap.get(r_.get("decl")))
+                t_ = re.sub(r"\(\*([A-Za-z_][\w@]*)\)\.", r"\1->", t_)        # (*x).f is x->f
                 return t_ if h.nodes[h.strip(rv)]["k"] in ("bin", "cond", "ref", "lit", "member") else "(" + t_ + ")"
             finally:
                 self._depth -= 1
